@@ -187,7 +187,14 @@ func dhtDo(op string, key []byte, param int, initial []p2p.PeerID, net *dhtNet) 
 		case "get":
 			res, err := kademlia.DHTGet(kademlia.DHTGetParams{
 				Initial: nodeInfos(initial), Key: key,
-				Validate: func(v []byte) bool { return len(v) > 0 && v[0] != 0 },
+				// two validators that agree on every value a node can send (three bytes): one rejects the absent value, the
+				// other (a size-limit style check) accepts it
+				Validate: func(v []byte) bool {
+					if param%2 == 1 {
+						return len(v) <= 3 && (len(v) == 0 || v[0] != 0)
+					}
+					return len(v) > 0 && v[0] != 0
+				},
 				Ask: func(n kademlia.NodeInfo, req kademlia.GetReq) (kademlia.GetRes, error) {
 					e, err := lookup(n)
 					if err != nil {
@@ -312,6 +319,9 @@ func genDhtCase(r *rand.Rand) (op string, key []byte, param int, initial []p2p.P
 	net, initial = genDhtNet(r, key[:32])
 	if op == "put" {
 		param = hx.Pick(r, 0, 1, 2, 3, 5)
+	}
+	if op == "get" {
+		param = r.Intn(2) // which of the two equivalent validators the caller passes
 	}
 	return
 }
@@ -446,6 +456,15 @@ func dhtOracle(r *rand.Rand, n int, tier string, infile string) (cases int, fail
 				e, ok := net.tab[f]
 				if !seen[f] || !ok || e.kind != 'a' || !bytes.Equal(run.value, append([]byte{1}, f[:2]...)) {
 					fail("get returned value %s from %s which is not a validated value of a contacted node", hx.Hex(run.value), hx.Hex(f[:4]))
+				}
+			}
+			// truthful: a contacted node answered with a value that passes validation => that (or another such) value is
+			// reported. (The error is tied to From being the zero id, which the model mirrors; the property does not speak
+			// about it.)
+			for _, id := range run.asks {
+				if e, ok := net.tab[id]; ok && e.kind == 'a' && run.value == nil {
+					fail("get contacted %s, which answered with a valid value, but reports no value (err=%v)", hx.Hex(id[:4]), run.err)
+					break
 				}
 			}
 			if best, any := nearestOf(func(id p2p.PeerID, e dhtEntry, ok bool) bool { return ok && e.kind != 'f' }); any && run.closest != best {
